@@ -36,6 +36,16 @@ def run(job):
     from ZODB.serialize import referencesf
     sched.install()
     sched.S = None
+    from .. import faultfs
+    if kw and kw.get('yield_io'):
+        # file-I/O granularity: every raw read/write on the data and .pack files is a yield point as well
+        faultfs.install()
+        faultfs.reset(workdir)
+        faultfs.YIELD_IO = True
+    else:
+        faultfs.YIELD_IO = False
+        faultfs.S.enabled = False
+    kw = {k: v for k, v in (kw or {}).items() if k != 'yield_io'}
     c = sd.consts('file', NOid=6, MaxTxn=20, MaxRecs=5, MaxClock=8, AtomVals=('v1', 'v2'), RefSets='AllRefs', Cls='MCClsPlain')
     rc = dict(c, Cls=sd.cls_map(c))
     rp = sd.StorageReplayer('file', rc, workdir, {})
@@ -113,6 +123,7 @@ def run(job):
             out['obs_reopen'] = observe(rp)
     finally:
         sched.S = None
+        faultfs.YIELD_IO = False
         rp.close()
     return out
 
